@@ -5,7 +5,6 @@ import os
 from experimaestro.utils import logger
 from .connectors import RedirectType, Redirect
 from .commandline import CommandLineJob, AbstractCommand, CommandContext
-from shlex import quote as shquote
 
 
 # TODO: should be reworked with the new way to build commands
@@ -81,8 +80,13 @@ class PythonScriptBuilder:
             ws, job.launcher.connector, directory, job.name, job.config
         )
 
+        def pystr(value) -> str:
+            """The text of a Python string literal: paths and values are
+            written into Python source, not onto a shell command line"""
+            return repr(str(value))
+
         def relpath(path: Path):
-            return shquote(context.relpath(path))
+            return pystr(context.relpath(path))
 
         # FIXME: big hack to generate the params.json file
         # which is all what we need for now, but this might not be true in the future
@@ -115,23 +119,25 @@ class PythonScriptBuilder:
 
             out.write("    lockfiles = [\n")
             for path in self.lockfiles:
-                out.write(f"       '''{relpath(path)}''',\n")
+                out.write(f"       {relpath(path)},\n")
             out.write("    ]\n")
 
             for name, value in job.environ.items():
                 if name == "PYTHONPATH":
                     # Handles properly python path
                     for path in value.split(":"):
-                        out.write(f"""    sys.path.insert(0, "{shquote(path)}")\n""")
+                        out.write(f"""    sys.path.insert(0, {pystr(path)})\n""")
                 else:
-                    out.write(f"""    os.environ["{name}"] = "{shquote(value)}"\n""")
+                    out.write(
+                        f"""    os.environ[{pystr(name)}] = {pystr(value)}\n"""
+                    )
             out.write("\n")
 
             for path in job.python_path:
-                out.write(f"""    sys.path.insert(0, "{shquote(str(path))}")\n""")
+                out.write(f"""    sys.path.insert(0, {pystr(path)})\n""")
 
             out.write(
-                f"""    TaskRunner("{shquote(connector.resolve(scriptpath))}","""
+                f"""    TaskRunner({pystr(connector.resolve(scriptpath))},"""
                 """ lockfiles).run()\n"""
             )
 
